@@ -26,7 +26,8 @@ CLAIMS = {
             "and every Check returns its boolean accumulator without a raise in the body. R-C18-INVERT: a raw-coordinate taint (artifact points handed to EcCurve without "
             "validation, propagated through the class by a worklist; `% self.mod` makes a value canonical again) finds the modular inversions that unreduced coordinates can reach, "
             "and each must be dominated by a test of its operand modulo the prime (exposed the Add/Double ZeroDivisionError repaired by fix 388cc4e). R-C18-ALIGN: batched search results "
-            "are indexed by the position in the very list that was searched (no IndexError from lists of different length).",
+            "are indexed by the position in the very list that was searched (no IndexError from lists of different length). R-C18-SHIFT: a shift count that is a difference of two "
+            "runtime quantities (hash length minus order length) is guarded non-negative on the path, is a range-loop index, or is non-negative by the floor lemma (ceiling differences).",
             "Trusted: Python container semantics, the abstract evaluator, gmpy2.invert raises exactly when the operand is 0 modulo the prime. Not decided: other arithmetic exceptions on degenerate values.",
             "DESIGN.md section 3 C18"),
     "C03": ("other", "abstract evaluation on the empty batch + symbolic structural induction over tree levels (polynomial step identities) + predicate-region equivalence",
@@ -45,8 +46,9 @@ CLAIMS = {
             "documented values for symbolic L = bitlen // 2 and the gate is exactly L < 384; the three msb variants for every listed unseeded output; "
             "no candidate-search loop of the five close-prime search functions returns its failure value or breaks without success "
             "(this rule exposed the FactorWithGuess defect, repaired by fix 73b1dbc); and FactorWithGuess is Lehman's construction: convergents u/v of p0/(n // p0), one Fermat step on 4uvn "
-            "with the square test, gcd release (R-C04-LEHMAN).",
-            "Not decided: the equal-high-and-low-bits region (r, s) and the prime-gap tolerance of guesses (runtime quantities); Lehman's completeness argument is trusted number theory.",
+            "with the square test, gcd release (R-C04-LEHMAN); in FactorHighAndLowBitsEqual the perfect-square test is applied to the candidate that is carried "
+            "into the next pass (so the last candidate, the one agreeing with the 2-adic root on all low bits, is tested) and the passes of one bit position advance by 2^i in total (R-C04-HIGHLOW).",
+            "Not decided: that the (r, s) region stated for the equal-high-and-low-bits check is exactly what the search covers, and the prime-gap tolerance of guesses (runtime quantities); Lehman's completeness argument is trusted number theory.",
             "DESIGN.md section 3 C04"),
     "C20": ("proof", "bit-width abstract interpretation over symbolic path terms with residue splitting of n (n = c*q + r), entropy-reachability and effect analysis",
             "For each of the 13 concrete RandomBits bodies, every path to return and every residue r of n modulo the lcm of the moduli the body tests, "
@@ -68,8 +70,10 @@ CLAIMS = {
             "bounds, random-excursion statistics) equals the SP 800-22 formula as a rational function of its function atoms (R-C12-FORMULA, pcstatic/ratfun.py). "
             "R-C12-PURE: no function of the five modules behind the tests writes state that outlives the call (globals, module-level containers directly or through an alias, mutable defaults); "
             "a module-level memo is accepted only when its key contains every input of the stored value. R-C12-LADDER: LargeBinaryMatrixRank tests every matrix 64*2^i with size^2 <= n "
-            "(loop condition in canonical form), agrees with its data-size guard, and hands the size x size prefix to the rank computation.",
-            "Not decided: the floating-point *values* of the p-values, the [0,1] range and the invariance clauses (runtime values). Shape rules (R-C12-CONSIST) compare normalised statements and are the most refactoring-sensitive part.",
+            "(loop condition in canonical form), agrees with its data-size guard, and hands the size x size prefix to the rank computation. "
+            "R-C12-TEMPLATE: a template is aperiodic iff no border of length 1..m-1 (equal-length prefix/suffix, every length), the default set is all aperiodic m-bit words, explicit overlapping templates are rejected. "
+            "R-C12-CONSIST is semantic: the class index of each histogram test equals clamp(T, 0, K) on a grid straddling both breakpoints, len(v) = K + 1, table of the same row/parameters, ladder visited in descending min_n.",
+            "Not decided: the floating-point *values* of the p-values, the [0,1] range and the invariance clauses (runtime values).",
             "DESIGN.md section 3 C12"),
     "C09": ("proof", "symbolic evaluation to polynomial identities modulo n (congruence stripping of `% n`, inverse atom), piecewise region equivalence, converter writer/reader agreement",
             "HiddenNumberParams: with si = invert(s, n) the returned pair satisfies a + b*d - si*(z + r*d) == 0 as a polynomial identity after stripping the reductions "
@@ -85,15 +89,17 @@ CLAIMS = {
             "opposite, 2-torsion, missing shared inverse) is checked path by path; the nine curve literals are prime-field, non-singular, G on curve, n prime, n*G = inf, Hasse-consistent. "
             "R-C11-SCALAR: Multiply and MultiplyAffine are proved by induction on their stated invariant res + n*p = N*P in a group-coefficient domain (entry for both signs of n, both parities "
             "of the counter via n = 2*(n//2) + n%2, exit at counter 0, shortcut returns). R-C11-COMB: the generator comb reduces every scalar to [0, n) before bit extraction (range proof incl. "
-            "conditional expressions), multiplier = (s >> i) & mask with cached multiples of G, teeth and offsets tile the bits of the order, Horner accumulation double-then-add.",
-            "Trusted: gmpy2.invert contract, congruence of `% mod`, the bit-decomposition lemma of the comb. Not decided: Montgomery's array invariants in BatchInverse (its final self-check is runtime).",
+            "conditional expressions), multiplier = (s >> i) & mask with cached multiples of G, teeth and offsets tile the bits of the order, Horner accumulation double-then-add. "
+            "R-C11-BATCHINV: Montgomery's simultaneous inversion is checked against declared invariants in an exponent domain (product = pre(i), res[i] = pre(i); inverse = pre(i+1)^-1; "
+            "res[i] = pre(i)*inverse = v_i^-1), zero/None entries skipped in both passes, the list returned only after the backward pass.",
+            "Trusted: gmpy2.invert contract, congruence of `% mod`, the bit-decomposition lemma of the comb.",
             "DESIGN.md section 3 C11"),
     "C02": ("other", "dominance of verifying comparisons over release sites on identical symbolic values (symbolic path walk), index-codec agreement, untrusted-source sanitisation (taint) analysis",
             "Every non-None store into BatchDL's result is dominated by Multiply(g, dl) == points[i] on x and y (resp. negated y for -dl); relation strings of "
             "BatchDLOfDifferences are formatted from exactly the (q, dl) for which Subtract(p, q) == Multiply(g, dl) was tested, the mirrored entry at j - len(other) "
             "with the negated list aligned by exactly one unconditional append per outer iteration; ExtendedBatchDL's writer index i + num_points*j and reader pair "
             "(k % num_points, k // num_points) agree; every DISCRETE_LOG sink records V[i] on artifact i of the very list whose images were searched with the curve "
-            "the list was filtered by; signature checks mark weak only under `i in _IssuerDLogs(...)`, and _IssuerDLogs stores guesses[i] only if "
+            "the list was filtered by; signature checks mark weak only under `i in _IssuerDLogs(...)` with an entry that is fresh or given its result in the same iteration, and _IssuerDLogs stores guesses[i] only if "
             "BatchMultiplyG(guesses)[i] is an issuer point; the U2F guess is released only after x1 == x2.",
             "Trusted: Multiply/BatchMultiplyG compute the group law (formulas C11, loops undecided). Hypothesis: recorded points are valid points of order n.",
             "DESIGN.md section 3 C02"),
@@ -103,7 +109,7 @@ CLAIMS = {
             "PointTable covers [0, N) (m*r >= N by the ceiling lemma, index i*m + j, both sequences of the right length); PointSequence yields 0..k-1 multiples; "
             "the cached table is rebuilt only when a larger one is requested and always matches its stored size; multiplier families 2^(8j) and repeated 32-bit words are complete, "
             "bound 2^32; only identical points are skipped and the early return only fires without pairs; the comparison list of the difference search stays aligned with the batch "
-            "(one append per outer iteration) and both relation stores name the right pair (rows shared with C02).",
+            "(one append per outer iteration) and both relation stores name the right pair (rows shared with C02); every pass of the giant-step loop looks its x-coordinate up in the table (the table maps None to 0, so exact multiples of the giant step are found through the point at infinity).",
             "Trusted: the two floor-division lemmas, int(math.sqrt) for these magnitudes, group-law correctness of the batched additions (C11). Assumes T >= 1.",
             "DESIGN.md section 3 C10"),
     "C19": ("proof", "declared loop invariants checked by symbolic execution of one iteration + polynomial step identities and exponent inequalities; release-guard dominance for the root finders",
@@ -113,7 +119,8 @@ CLAIMS = {
             "exhaustive filter for k < 3. DivmodRounded: a = x*b + y by the divmod axiom and |y| <= b/2 for every residue of b modulo 2 (exposed the defect repaired by fix 16e0547). The three small-root finders release a root only under "
             "the divisibility test on f(root) of the same root. ContinuedFraction is the Euclid recurrence and appends (q, r, t) after the update. "
             "R-C19-BIAS: lattice_suite.Bias is UniformSumCdf(#terms, 2*T/n) with T the sum over sample x transforms of min(r, n - r), r = (a*s + b) % n, and the count handed to the "
-            "Irwin-Hall CDF equals the number of additions into T (closed form of the accumulation: product of the trip counts of the enclosing loops).",
+            "Irwin-Hall CDF equals the number of additions into T (closed form of the accumulation: product of the trip counts of the enclosing loops). "
+            "R-C19-PURE: no helper of ntheory_util, linalg_util, small_roots, lattice_suite, randomness_tests.util writes state that outlives the call (a memo is accepted only when keyed by every input of the stored value).",
             "Not decided (runtime values): the rational solver (echelon_form's row moves), completeness of the small-root finders, Sieve, PseudoAverage, UniformSumCdf, CombinedPValue numerics; product trees are under C03.",
             "DESIGN.md section 3 C19"),
     "C06": ("other", "predicate-region equivalence of extracted path conditions (integer comparisons + opaque boolean atoms), constant folding of tables, for-all loop shape analysis, string-grammar writer/reader agreement",
@@ -175,8 +182,9 @@ CLAIMS = {
             "holds everything; every signature index of a verified issuer is assigned; each of the 18 LCG model entries has 1 <= min_signatures <= sliding_window_size <= sample_size, "
             "enough constants for the largest prefix the subset generator can request, w a power of two and a supported curve; DEFAULT = SINGLE|SLIDING|INCLUDE_KEY and the three regimes "
             "yield a problem whenever len(a) >= min_signatures - 1; U2F basis, gate and sliding pair + single window; the entry recorded for a signature is created or given its "
-            "result in that signature's own iteration, so other issuers keep their own verdict (R-C08-OWN).",
-            "Some regime checks of _HiddenNumberProblemSubsets compare normalised statements (refactoring-sensitive).",
+            "result in that signature's own iteration, so other issuers keep their own verdict (R-C08-OWN); the candidate keys handed to _IssuerDLogs are only ever grown inside "
+            "the per-issuer loop and every lattice result is added (R-C08-ACCUM); _IssuerDLogs assigns the guess to every signature index of the matched issuer (R-C08-MARKALL, from the loop structure).",
+            "R-C08-SUBSETS reads the generator's yield events: identical selections of a and b, ceil(sample_size / signatures) constants (floor-division forms recognised), regime coverage evaluated on a grid of (len(a), window, min_signatures).",
             "DESIGN.md section 3 C08"),
     "C16": ("other", "typestate / who-may-write analysis over the AST + symbolic path walk of all 24 Check bodies",
             "Decides, for every path of every Check body in the package, that each loop iteration records exactly one "
